@@ -32,9 +32,12 @@ RULES = {
               "vertex appended and one increment per visited vertex, one component step per extracted cycle, both endpoints of every "
               "edge remapped; visited book-keeping of both cycle collectors: a cycle is extracted from every not yet visited border "
               "vertex and all its vertices are marked",
-    "C15-W1": "border walk skeleton: next vertex = first neighbour that is on the border and differs from the previous vertex, "
+    "C15-W1": "border walk orientation: the first step leaves through the head of the sorted neighbour list and the choice loop scans forward "
+              "with first match (or tail / backward), so that the chosen neighbour is joined by a border edge; skeleton: next vertex = first neighbour that is on the border and differs from the previous vertex, "
               "(previous, current) advance together, the walk stops on return to the start, each step records the vertex and the "
               "edge (previous, current), the closing edge is appended",
+    "C15-G1": "quantities the detector derives from the vertex positions are recomputed on every run: an attribute the detector reuses when "
+              "present (has_attribute / get_attribute) is never created persistent by the detector itself (persistent=False at the call)",
     "C15-K1": "corner order = round(angle * corner_order / (2 pi)) of the summed corner angles of the vertex over its incident faces",
 }
 
@@ -46,6 +49,7 @@ def run(ctx):
     b1_boundary(ctx)
     w1_walk(ctx)
     k1_corners(ctx)
+    g1_geometry_cache(ctx)
 
 
 # =========================================================================== sources
@@ -966,6 +970,8 @@ def w1_walk(ctx):
         and len(c0.value.args) == 1 and H.is_name(c0.value.args[0], start)
     ctx.check(ok_init, "C15-W1", site, "extract_border_cycle: the walk does not start as vertices=[start], previous=start, current=a neighbour of start",
               "", note="walk initialised at the starting vertex")
+    H.check_walk_orientation(ctx, "C15-W1", BORD, fn)
+    H.check_sort_contract(ctx, "C15-W1")
     fl.require(8)
 
 
@@ -1024,3 +1030,30 @@ def k1_corners(ctx):
 def Fraction_of(x):
     from fractions import Fraction
     return Fraction(x).limit_denominator(10 ** 9)
+
+
+# =========================================================================== geometry caches
+def g1_geometry_cache(ctx):
+    repo = ctx.repo
+    cls = repo.cls(FEAT, DET)
+    fns = [st for st in cls.body if isinstance(st, ast.FunctionDef)]
+    reused = H.reused_attributes(fns)
+    n = 0
+    for fn in fns:
+        for c in au.calls(fn):
+            facts = H.persistent_call_facts(repo, FEAT, c)
+            if facts is None:
+                continue
+            n += 1
+            key = (facts["container"], facts["name"])
+            clash = facts["persistent"] is not False and (key in reused or facts["name"] is None or facts["container"] is None
+                                                           and any(nm == facts["name"] for _, nm in reused))
+            ctx.check(not clash, "C15-G1", ctx.site(FEAT, fn, c),
+                      f"{fn.name}: `{au.call_tail(c)}` stores its result on the mesh under a name the detector reuses when present",
+                      f"{facts['callee']} is called with persistent={facts['persistent']} and creates mesh.{facts['container']}[{facts['name']!r}], which "
+                      "the detector reads back through has_attribute/get_attribute on its next run: detect, move the vertices, detect again "
+                      "applies the thresholds to the normals / angles of the old geometry",
+                      note=f"{fn.name}: {au.call_tail(c)} not persisted under a reused name (persistent={facts['persistent']})")
+    if n == 0:
+        ctx.fail("C15-G1", ctx.site(FEAT, repo.func(FEAT, f"{DET}.run")), "FeatureEdgeDetector: computation of the face normals / corner angles not found",
+                 "no call of a mouette.attributes function with a `persistent` parameter is left in the detector")
